@@ -135,7 +135,22 @@ fn yielded_name(p: &str) -> String {
 
 /// Reference traversal: the sequence the options denote (siblings name-ordered; for unsorted
 /// runs the caller compares as multiset + parent/child constraints)
-fn ref_walk(m: &Model, own: &str, depth: usize, o: &Opts, chain: &mut Vec<String>, out: &mut Vec<Item>, unsupported: &mut bool) {
+/// a link that does not lead (directly or through more links) to an existing non-link entry
+fn is_dangling(m: &Model, link: &str) -> bool {
+    let mut t = link.to_string();
+    for _ in 0..16 {
+        match m.t.nodes.get(&t) {
+            Some(Node::Link { target, .. }) => t = target.clone(),
+            Some(_) => return false,
+            None => return true,
+        }
+    }
+    true
+}
+
+/// `std_flags`: a link whose target does not exist (directly or through more links) has no kind on the real
+/// filesystem (neither is_dir nor is_file) while Memfs types it as a file - both admitted, per backend
+fn ref_walk(m: &Model, own: &str, depth: usize, o: &Opts, chain: &mut Vec<String>, out: &mut Vec<Item>, unsupported: &mut bool, std_flags: bool) {
     let n = match m.t.nodes.get(own) {
         Some(n) => n,
         None => return,
@@ -147,7 +162,9 @@ fn ref_walk(m: &Model, own: &str, depth: usize, o: &Opts, chain: &mut Vec<String
         _ => (false, String::new()),
     };
     let (ypath, yalt) = if is_link && o.follow { (target.clone(), own.to_string()) } else { (own.to_string(), target.clone()) };
-    let item = Item::Entry { path: ypath.clone(), alt: yalt, dir: dirish, file: !dirish, link: is_link };
+    let dangling = is_link && is_dangling(m, own);
+    let filish = !dirish && !(std_flags && dangling);
+    let item = Item::Entry { path: ypath.clone(), alt: yalt, dir: dirish, file: filish, link: is_link };
     let descend_candidate = dirish && (!is_link || o.follow);
     if descend_candidate && is_link && chain.iter().any(|c| *c == ypath) {
         out.push(Item::Loop(ypath));
@@ -156,7 +173,7 @@ fn ref_walk(m: &Model, own: &str, depth: usize, o: &Opts, chain: &mut Vec<String
     let in_window = depth >= o.min;
     let passes = match o.filter {
         1 => dirish,
-        2 => !dirish,
+        2 => filish,
         3 => yielded_name(&ypath).contains('a'),
         _ => true,
     };
@@ -204,7 +221,7 @@ fn ref_walk(m: &Model, own: &str, depth: usize, o: &Opts, chain: &mut Vec<String
             kids = if o.order == 2 { d.into_iter().chain(f).collect() } else { f.into_iter().chain(d).collect() };
         }
         for (c, _, _) in kids {
-            ref_walk(m, &c, depth + 1, o, chain, out, unsupported);
+            ref_walk(m, &c, depth + 1, o, chain, out, unsupported, std_flags);
         }
         chain.pop();
     }
@@ -316,6 +333,11 @@ pub fn directed() -> Vec<(Vec<Op>, Vec<&'static str>)> {
             vec![d("/x/y/z"), f("/x/y/z/f"), l("/x/l1", "/x/y"), l("/x/y/l2", "/x/y/z"), l("/x/y/z/l3", "/x/y/z/f"), l("/x/y/z/self", "/x/y/z"), l("/x/y/z/top", "/x")],
             vec!["/x", "/x/y", "/x/y/z", "/x/l1"],
         ),
+        // chains of links (link -> link -> dir / file) between directories that sort around them
+        (
+            vec![d("/c/real/sub"), f("/c/real/f"), d("/c/a_dir"), d("/c/z_dir/in"), l("/c/l1", "/c/real"), l("/c/l2", "/c/l1"), l("/c/lf1", "/c/real/f"), l("/c/lf2", "/c/lf1"), l("/c/z_dir/in/l3", "/c/l2"), l("/c/m_dang", "/c/nope")],
+            vec!["/c", "/", "/c/z_dir"],
+        ),
     ]
 }
 
@@ -361,7 +383,7 @@ pub fn check_trav_on(b: &Built, root: &str, o: &Opts, stdfs: bool) -> CaseResult
     let m = &b.model;
     let mut want = vec![];
     let mut unsupported = false;
-    ref_walk(m, root, 0, o, &mut vec![], &mut want, &mut unsupported);
+    ref_walk(m, root, 0, o, &mut vec![], &mut want, &mut unsupported, stdfs);
     if unsupported {
         ctx().exclude(1);
         return Ok(());
@@ -458,7 +480,16 @@ pub fn check_listings(b: &Built, stdfs: bool) -> CaseResult {
             ("all_dirs", Op::AllDirs(p.clone())),
             ("all_files", Op::AllFiles(p.clone())),
         ] {
-            let expect = m.apply(&op);
+            let mut expect = m.apply(&op);
+            if stdfs && name.ends_with("files") {
+                // on the real filesystem a dangling link is no file (Memfs types it as one): admitted per backend
+                for a in expect.iter_mut() {
+                    match &mut a.out {
+                        Pat::Listing(v) | Pat::Is(Out::Paths(v)) => v.retain(|x| !(m.kind(x) == Some(Kind::Link) && is_dangling(m, x))),
+                        _ => {},
+                    }
+                }
+            }
             let real_op = match &op {
                 Op::Paths(_) => Op::Paths(arg.clone()),
                 Op::Dirs(_) => Op::Dirs(arg.clone()),
@@ -542,8 +573,8 @@ pub fn all_opts() -> Vec<Opts> {
 }
 
 pub fn run(c: &Ctx) {
-    c.set_rule("three hand-made trees aimed at name-prefix confusions, shared targets and self/ancestor links (full option product from 4-5 roots each, both backends) and proptest-generated trees (<=25 entries, depth <=5, 12 adversarial names incl. multi-byte/space/dot names, links to earlier entries of any kind, dangling links, links to ancestor directories; one tree in ten with a 60-level directory chain, deeper than the descriptor cap) x the FULL cross-product of entries() options: depth window {(0,0),(0,1),(0,2),(0,inf),(1,1),(1,2),(1,inf),(2,2),(2,inf),(3,inf)} in both call orders x filter {none, dirs(), files(), filter_p(name contains 'a')} x follow x ordering {none, sort_by_name, dirs_first, files_first, custom reverse-name sort} x contents_first x descriptor cap {default, 1, 2 via hook H3} = 4800 option sets per tree, from the root and from one inner directory; Memfs always; on Stdfs (tree materialised with std::fs) one tree in four with a seeded sixth of the option sets. Oracle: reference traversal over the model: multiset equality of (path, alt, kind flags) incl. LinkLooping items, exact sequence when an ordering is set, parent-before/after-contents otherwise, termination bound 4*(entries+1)*(links+1). Listing helpers paths/dirs/files/all_* on every path (dir, file, link, missing) vs the model: absolute, distinct, name-sorted, exclude the argument, agree with exists/is_dir/is_file. Non-trivial = option set with >=2 non-default options on a tree with a nested directory (and a link when follow); distinct by (tree, root, options).");
-    c.assume("windows with min>max (builder clamping) are not generated; trees in which a followed link points at another link are excluded for follow runs (counted); Stdfs comparison uses trees without dangling links");
+    c.set_rule("four hand-made trees aimed at name-prefix confusions, shared targets, self/ancestor links and chains of links (full option product from 4-5 roots each, both backends) and proptest-generated trees (<=25 entries, depth <=5, 12 adversarial names incl. multi-byte/space/dot names, links to earlier entries of any kind, dangling links, links to ancestor directories; one tree in ten with a 60-level directory chain, deeper than the descriptor cap) x the FULL cross-product of entries() options: depth window {(0,0),(0,1),(0,2),(0,inf),(1,1),(1,2),(1,inf),(2,2),(2,inf),(3,inf)} in both call orders x filter {none, dirs(), files(), filter_p(name contains 'a')} x follow x ordering {none, sort_by_name, dirs_first, files_first, custom reverse-name sort} x contents_first x descriptor cap {default, 1, 2 via hook H3} = 4800 option sets per tree, from the root and from one inner directory; Memfs always; on Stdfs (tree materialised with std::fs) one tree in four with a seeded sixth of the option sets. Oracle: reference traversal over the model: multiset equality of (path, alt, kind flags) incl. LinkLooping items, exact sequence when an ordering is set, parent-before/after-contents otherwise, termination bound 4*(entries+1)*(links+1). Listing helpers paths/dirs/files/all_* on every path (dir, file, link, missing) vs the model: absolute, distinct, name-sorted, exclude the argument, agree with exists/is_dir/is_file. Non-trivial = option set with >=2 non-default options on a tree with a nested directory (and a link when follow); distinct by (tree, root, options).");
+    c.assume("windows with min>max (builder clamping) are not generated; trees in which a followed link points at another link are excluded for follow runs (counted); generated Stdfs trees have no dangling links; the hand-made chain tree has one: on the real filesystem a dangling link is neither dir nor file (Memfs: a file), the reference follows the backend");
     let opts = all_opts();
     c.note("option_sets_per_tree", opts.len());
     // directed trees, full option product, Memfs + Stdfs
